@@ -62,8 +62,9 @@ func runCase(c *core.Case) {
 			boardSize = 0
 		}
 	}
-	initial := strings.Repeat("initial board line\r", boardSize/19)
-	agreement := strings.Repeat("agreement line 0123456789\r", agreeSize/26)
+	// Mac-Roman text: bytes above 0x7f that are not valid UTF-8 (accented letters, (c), curly quotes) must pass through
+	initial := strings.Repeat("initial b\x8eard lin\x8e\r", boardSize/19)
+	agreement := strings.Repeat("agr\x8eement \xa9 \xd2line\xd3 012345\r", agreeSize/26)
 	srv, err := fixture.New(fixture.Options{Board: initial, Agreement: agreement, Accounts: []fixture.Account{
 		{Login: "guest", Name: "guest", Access: fixture.GuestBits()},
 		{Login: "admin", Name: "admin", Access: rc.AllBits()},
